@@ -134,6 +134,14 @@ CHECKS.update({
             "DESIGN.md §2 C19"),
 })
 
+CHECKS.update({
+    "C08": ("exploration",
+            "deterministic thread scheduler on sys.monitoring (LINE/INSTRUCTION events local to pool.py and PooledClient code objects) + scheduler-aware pool lock (lock_generator= seam) + socket-call points; ownership ledger, pool invariants, deadlock and conservation monitors; schedules enumerated within a preemption bound by prefix replay",
+            "Real threads run the real ObjectPool / PooledClient code, one at a time, under a scheduler that can switch threads at every line (thorough: every bytecode instruction) of the pool and PooledClient code, at every pool-lock operation and at every socket call. For 2-thread programs of 1-2 operations and 3-thread programs of 1 operation (succeeding, failing, destroying, clearing; max_size 1/2/None; idle timeout) every schedule with at most P preemptions (quick: 2 for two single-op threads, 1 otherwise, cut by a per-program budget; thorough: one more, plus INSTRUCTION granularity with P=2) and every choice at block/finish points is executed. Monitors: an object handed to a second thread before the first passed it to release/destroy, two threads inside one inner client, used+free > max_size or a duplicate wherever no pool lock is held, any exception out of get/release/destroy/clear other than a justified exhaustion, deadlock, and at quiescence every object/socket idle in the pool or removed/closed exactly once.",
+            "Interleavings are those the scheduler can produce at its scheduling points (see assumptions in the evidence); programs have at most 3 threads and 3 operations; budget cuts are reported as cases_cut_by_budget. Two known findings (PooledClient.close() racing an in-flight call) are listed in known_findings.txt.",
+            "DESIGN.md §2 C08"),
+})
+
 NOT_YET = "check not built yet in this round (runtime-monitoring design in DESIGN.md §2); will be claimed once its monitor exists"
 
 manifest = {
